@@ -59,8 +59,54 @@ def _finite(v):
     return (isinstance(v, int) and not isinstance(v, bool)) or (isinstance(v, float) and not math.isnan(v) and not math.isinf(v))
 
 
+def _has_nan_oracle(v):
+    if isinstance(v, (list, tuple)):
+        return any(_has_nan_oracle(i) for i in v)
+    return _isnan(v)
+
+
+def replay_sort(call):
+    from pyg_base._sort import cmp, sort, _has_nan
+    b = Builder(call)
+    kind = call.get('kind', '')
+    try:
+        x = b.get('x')
+        y = b.get('y') if 'y_tag' in call else None
+    except Unbuildable as e:
+        return dict(fails=None, detail='model not concretisable: %s' % e)
+    try:
+        if kind == 'has_nan':
+            got, exp = _has_nan(x), _has_nan_oracle(x)
+            return dict(fails=got != exp, detail='_has_nan(%r) = %r, expected %r' % (x, got, exp))
+        if kind.startswith('sort.lemma'):
+            if _has_nan_oracle(x) or _has_nan_oracle(y):
+                return dict(fails=False, detail='NaN present: outside the lemma')
+            c = cmp(x, y)
+            try:
+                lt = x < y
+            except TypeError:
+                return dict(fails=False, detail='native < undefined on %r, %r' % (x, y))
+            same = x is y or x == y
+            bad = (bool(lt) != (c < 0)) or (not isinstance(x, (list, tuple)) and (same != (c == 0)))
+            return dict(fails=bad, detail='x=%r y=%r: x<y is %r, x==y is %r, cmp(x,y) = %r' % (x, y, lt, same, c))
+        if not isinstance(x, (list, tuple)):
+            return dict(fails=False, detail='sort input is not a list in the model')
+        res = sort(x)
+        probs = []
+        if sorted(map(id, res)) != sorted(map(id, x)):
+            probs.append('not a permutation (by identity)')
+        for i in range(len(res) - 1):
+            if cmp(res[i], res[i + 1]) > 0:
+                probs.append('cmp(res[%d], res[%d]) = 1' % (i, i + 1))
+        return dict(fails=bool(probs), detail='sort(%r) = %r: %s' % (x, res, '; '.join(probs) or 'permutation, non-decreasing under cmp'))
+    except Exception as e:      # noqa
+        return dict(fails=True, detail='%s raised %r on %r' % (kind, e, x))
+
+
 def replay(call):
     from pyg_base._sort import cmp, cmparr
+    if call.get('kind', '') in ('sort', 'has_nan') or call.get('kind', '').startswith('sort.lemma'):
+        return replay_sort(call)
     b = Builder(call)
     try:
         x, y = b.get('x'), b.get('y')
